@@ -396,7 +396,7 @@ func (w *World) rulesV4ScoreRest(m *scoreModel, modFn *types.Func, add func(ok b
 		add(okDepth, "R04.sibling", inst+".depth", fd, map[bool]string{true: "divided by depth+1 of the same EQ and level: " + dstr, false: "the term of EQ" + which + " is divided by the depth " + dstr + " of another EQ or level"}[okDepth])
 		// depth values
 		if okDepth {
-			w.checkDepth(p, which, tm.depth, add)
+			w.checkDepth(m, p, which, tm.depth, add)
 		}
 		// severity distance sum
 		if ln != nil {
@@ -421,10 +421,21 @@ func (w *World) rulesV4ScoreRest(m *scoreModel, modFn *types.Func, add func(ok b
 			add(false, "R04.sibling", "Score.term[EQ"+K+"]", fd, "the mean has no term for EQ"+K)
 		}
 	}
+	w.checkInterp(m, add)
+}
+
+func (m *scoreModel) setDepth(eq, level string, v *big.Rat) {
+	if m.depth1 == nil {
+		m.depth1 = map[string]map[string]*big.Rat{}
+	}
+	if m.depth1[eq] == nil {
+		m.depth1[eq] = map[string]*big.Rat{}
+	}
+	m.depth1[eq][level] = v
 }
 
 // checkDepth: depth+1 of the code vs the oracle, for every level macroVector can assign.
-func (w *World) checkDepth(p *Pkg, which string, call *Ex, add func(ok bool, rule, inst string, n ast.Node, detail string)) {
+func (w *World) checkDepth(m *scoreModel, p *Pkg, which string, call *Ex, add func(ok bool, rule, inst string, n ast.Node, detail string)) {
 	name := strings.TrimPrefix(call.Name, "tbl:")
 	fd := p.Funcs[name]
 	if fd == nil {
@@ -456,6 +467,7 @@ func (w *World) checkDepth(p *Pkg, which string, call *Ex, add func(ok bool, rul
 				continue
 			}
 			want := big.NewRat(int64(v40.Depth36[k]), 1)
+			m.setDepth("36", k, got)
 			add(got.Cmp(want) == 0, "R04.depth", inst, fd, fmt.Sprintf("depth+1 = %s, specification %s", got.RatString(), want.RatString()))
 		}
 		return
@@ -468,6 +480,7 @@ func (w *World) checkDepth(p *Pkg, which string, call *Ex, add func(ok bool, rul
 			add(false, "R09.exhaustive", inst, fd, fmt.Sprintf("reachable level %d of EQ%s has no depth: %v", lvl, which, err))
 			continue
 		}
+		m.setDepth(which, fmt.Sprint(lvl), got)
 		if which == "5" {
 			// distance is 0: any non-zero divisor leaves the score unchanged
 			add(got.Sign() != 0, "R04.depth", inst, fd, fmt.Sprintf("depth+1 = %s (only required to be non-zero: the EQ5 distance is 0)", got.RatString()))
